@@ -83,6 +83,9 @@ enum Op {
     Count,
     Lines,
     Clone,
+    /// get_line_slice on the same view, so that state left behind by line requests (and by
+    /// earlier slices) is exercised
+    Slice(u32, u32, u32),
 }
 
 fn orders(n_lines: usize, rng: &mut Rng) -> Vec<(&'static str, Vec<Op>)> {
@@ -98,13 +101,18 @@ fn orders(n_lines: usize, rng: &mut Rng) -> Vec<(&'static str, Vec<Op>)> {
         ("lines()-interleaved", vec![Op::Line(n / 2), Op::Lines, Op::Line(0), Op::Lines, Op::Count]),
         ("clone-midway", vec![Op::Line(n / 2), Op::Clone, Op::Line(n - 1), Op::Count, Op::Clone, Op::Lines, Op::Line(0)]),
         ("request-after-exhaustion", vec![Op::Line(n + 5), Op::Line(0), Op::Line(u32::MAX), Op::Line(n - 1), Op::Line(n)]),
+        (
+            "slices-interleaved",
+            vec![Op::Slice(n - 1, 0, 1), Op::Line(0), Op::Slice(0, 1, 1), Op::Slice(0, 0, 2), Op::Count, Op::Slice(n / 2, 1, 2), Op::Slice(n / 2, 0, 1), Op::Clone, Op::Slice(0, 2, 1), Op::Slice(0, 1, 3), Op::Lines, Op::Slice(n, 0, 0)],
+        ),
     ];
     let mut r = vec![];
     for _ in 0..rng.range_usize(3, 10) {
-        r.push(match rng.below(8) {
+        r.push(match rng.below(10) {
             0 => Op::Count,
             1 => Op::Lines,
             2 => Op::Clone,
+            3..=5 => Op::Slice(rng.below(u64::from(n) + 1) as u32, rng.below(5) as u32, rng.below(4) as u32),
             _ => Op::Line(rng.below(u64::from(n) + 2) as u32),
         });
     }
@@ -153,6 +161,17 @@ fn run_order(ctx: &mut Ctx, text: &str, want: &[&str], ops: &[Op]) -> Result<(),
                 let got: Vec<&str> = view.lines().collect();
                 if got != want {
                     return Err(("lines-iterator".into(), format!("step {k}: lines() = {got:?}, expected {want:?}")));
+                }
+            }
+            Op::Slice(l, c, sp) => {
+                ctx.op("get_line_slice");
+                let got = view.get_line_slice(*l, *c, *sp);
+                let (w1, w2) = match want.get(*l as usize) {
+                    None => (None, None),
+                    Some(line) => ref_slice(line, *c, *sp),
+                };
+                if !(got == w1.as_deref() || (w2.is_some() && got == w2.as_deref())) {
+                    return Err(("slice-content-in-history".into(), format!("step {k}: get_line_slice({l},{c},{sp}) = {got:?} on a view with history; UTF-16 reading gives {w1:?}{}", if w2.is_some() { format!(" or {w2:?}") } else { String::new() })));
                 }
             }
             Op::Clone => {
